@@ -29,6 +29,20 @@ theorem pin_pyscript : Gen.C18.PYSCRIPT_READS_LEN_CONTENT = true := by decide
 theorem pin_connect_writes : Gen.C18.CONNECT_WRITES = ["content", "content2"] := by decide
 theorem pin_opt_format : Gen.C18.OPT_FORMAT = "%s=%r\n" ∧ Gen.C18.OPT_ENCODING = "UTF8" := by decide
 theorem pin_option_keys : Gen.C18.OPTION_KEYS = Gen.C18.ASSEMBLER_MAIN_ARGS := by decide
+/-- `assembler.py`'s call hands every parameter of the real `server.main` the option of the
+same name (the call order and the parameter list agree) -/
+theorem pin_main_binding : Gen.C18.MAIN_BINDING = Gen.C18.SERVER_MAIN_PARAMS := by decide
+/-- the parameters of `server.main` are exactly the options the client sends -/
+theorem pin_main_params : (∀ p ∈ Gen.C18.SERVER_MAIN_PARAMS, p ∈ Gen.C18.OPTION_KEYS) ∧
+    (∀ k ∈ Gen.C18.OPTION_KEYS, k ∈ Gen.C18.SERVER_MAIN_PARAMS) ∧
+    Gen.C18.SERVER_MAIN_PARAMS.length = Gen.C18.OPTION_KEYS.length := by decide
+
+theorem zip_map_self {α β : Type} (l : List α) (f : α → β) :
+    l.zip (l.map f) = l.map (fun p => (p, f p)) := by
+  induction l with
+  | nil => rfl
+  | cons a r ih => simp [ih]
+
 theorem pin_mux_init : Gen.C18.MUX_INIT_ONLY_QUEUES = true := by decide
 theorem pin_main_order : Gen.C18.CLIENT_MAIN_ORDER = ["connect", "Mux", "read", "runonce"] := by decide
 theorem pin_server_sync_first : Gen.C18.SERVER_SYNC_FIRST = true := by decide
